@@ -1642,8 +1642,13 @@ class Parallel(Logger):
             )
 
     def _abort(self):
-        # Stop dispatching new jobs in the async callback thread
-        self._aborting = True
+        # Stop dispatching new jobs in the async callback thread. Taking the
+        # lock makes sure that a callback thread that is in the middle of
+        # registering a result or of a dispatch (hence consuming the input
+        # iterable) is done with it when this method returns: it can no longer
+        # interfere with the clean-up that follows, nor with the next call.
+        with getattr(self, "_lock", nullcontext()):
+            self._aborting = True
 
         # If the backend allows it, cancel or kill remaining running
         # tasks without waiting for the results as we will raise
